@@ -427,7 +427,7 @@ type area struct{ kind int }
 // mistaken for a loop.
 var callTimeout = 2 * time.Second
 
-func (area) Run(line string) string {
+func (a area) Run(line string) string {
 	done := make(chan string, 1)
 	go func() {
 		defer func() {
@@ -439,7 +439,7 @@ func (area) Run(line string) string {
 				}
 			}
 		}()
-		done <- runLine(line)
+		done <- runLine(line, a.kind == 9, a.kind == 12, a.kind == 13)
 	}()
 	select {
 	case out := <-done:
@@ -450,10 +450,23 @@ func (area) Run(line string) string {
 	}
 }
 
-func runLine(line string) string {
+func runLine(line string, prune, contains, lmt bool) string {
 	t := &tokens{f: strings.Fields(line)}
 	op := t.next()
 	ft := t.next()
+	if op == "emit" || op == "sbt" { // stages of the clipper seen through the overlay (emit.go)
+		switch {
+		case op == "emit" && ft == "f32":
+			return runEmit[float32](t)
+		case op == "emit" && ft == "f64":
+			return runEmit[float64](t)
+		case op == "sbt" && ft == "f32":
+			return runSbt[float32](t)
+		case op == "sbt" && ft == "f64":
+			return runSbt[float64](t)
+		}
+		return "bad-op"
+	}
 	if op == "chain" {
 		switch ft {
 		case "f32":
@@ -464,9 +477,17 @@ func runLine(line string) string {
 		return "bad-op"
 	}
 	margin := 0.0
+	var pts []float64 // area `contains`: the points the library's own tests are evaluated at
 	switch t.next() {
 	case "L":
-		t.count(1 << 20)
+		n := t.count(1 << 20)
+		if contains && n <= 64 {
+			for j := 0; j < n; j++ {
+				for i := 0; i < n; i++ {
+					pts = append(pts, float64(i)+0.5, float64(j)+0.5)
+				}
+			}
+		}
 	case "LT": // lattice at another magnitude: <N> <k> <ox> <oy>, coordinate = (lattice + offset) * 2^k
 		t.count(1 << 20)
 		for i := 0; i < 3; i++ {
@@ -478,10 +499,40 @@ func runLine(line string) string {
 		margin = parseNum(t.next())
 		k := t.count(1 << 20)
 		for i := 0; i < 2*k; i++ {
-			parseNum(t.next())
+			v := parseNum(t.next())
+			if contains {
+				pts = append(pts, v)
+			}
 		}
 	default:
 		bad()
+	}
+	if contains { // area `contains`: Polygon.ContainsEvenOdd / Polygon.Contains of the operands at the points of the line
+		switch ft {
+		case "f32":
+			return runContains[float32](t, pts)
+		case "f64":
+			return runContains[float64](t, pts)
+		}
+		return "bad-op"
+	}
+	if lmt { // area `lmt`: the local minima table of A
+		switch ft {
+		case "f32":
+			return runLmt[float32](op, t)
+		case "f64":
+			return runLmt[float64](op, t)
+		}
+		return "bad-op"
+	}
+	if prune { // area `prune`: the flags of the bounding-box pruning step instead of the result of the call
+		switch ft {
+		case "f32":
+			return runPrune[float32](op, t)
+		case "f64":
+			return runPrune[float64](op, t)
+		}
+		return "bad-op"
 	}
 	switch ft {
 	case "f32":
@@ -512,6 +563,16 @@ func (a area) Gen(r *hx.Rng, n int, tier string, emit func(string)) {
 			emit(genTinyGeneral(r.Fork()))
 		case 8:
 			emit(genTinyLattice(r.Fork()))
+		case 9:
+			emit(genPrune(r.Fork()))
+		case 10:
+			emit(genEmit(r.Fork()))
+		case 11:
+			emit(genSbt(r.Fork()))
+		case 12:
+			emit(genContains(r.Fork()))
+		case 13:
+			emit(genLmt(r.Fork()))
 		default:
 			emit(genLattice(r.Fork()))
 		}
@@ -524,5 +585,7 @@ func main() {
 	}
 	hx.Main(map[string]hx.Area{"lattice": area{kind: 0}, "general": area{kind: 1}, "degenerate": area{kind: 2},
 		"biglattice": area{kind: 3}, "biggeneral": area{kind: 4}, "demo": area{kind: 5},
-		"chain": area{kind: 6}, "tinygeneral": area{kind: 7}, "tinylattice": area{kind: 8}})
+		"chain": area{kind: 6}, "tinygeneral": area{kind: 7}, "tinylattice": area{kind: 8}, "prune": area{kind: 9},
+		"emit": area{kind: 10}, "sbt": area{kind: 11}, "contains": area{kind: 12},
+		"lmt": area{kind: 13}})
 }
